@@ -70,7 +70,7 @@ PROPS = {
     },
     "C06": {
         "level": "proof",
-        "verus": ["unescape", "lines"],
+        "verus": ["unescape", "lines", "string_value"],
         "technique": "Verus contracts on the extracted unescape_string and GraphQLLines::next (unbounded), with a lemma tying the precondition to the C03 string grammar",
         "explanation": "KERNEL ONLY. Unit unescape: Verus proves on the extracted unescape_string, for every lexically valid quoted-string body of any length, that the result equals the "
                        "spec's static semantics of StringValue (every StringCharacter contributes itself, the character of its EscapedCharacter per the spec's table, or the code point of its four hex digits) and that "
@@ -78,13 +78,15 @@ PROPS = {
                        "lemma_lexer_accepts_only_decodable_strings proves that every text satisfying is_quoted_string -- the very predicate (shared text of unit lexer) that C03 establishes for each StringValue token "
                        "the lexer returns without error, now including the exclusion of surrogate escapes -- is a quote, a body satisfying this precondition, a quote. "
                        "Unit lines: GraphQLLines::next (step 1 of BlockStringValue, `split_lines`) yields the text before the first LF / CR, continues after the terminator with CR LF skipped as ONE terminator, "
-                       "yields one line for a text without terminators (also the empty text) and then finishes; every byte-offset slice is on a char boundary. Bodies are re-extracted from /repo on every run.",
+                       "yields one line for a text without terminators (also the empty text) and then finishes; every byte-offset slice is on a char boundary. "
+                       "Unit string_value: `From<&cst::StringValue> for String` -- given that the token text is a StringValue the lexer accepted (C03's postcondition, shared text) -- never slices out of range or off a char boundary, "
+                       "never sends a quoted literal down the block branch, calls unescape_string with its precondition established (the composition lemma used at the real call site), and returns decoded(body) for quoted literals. "
+                       "Bodies are re-extracted from /repo on every run.",
         "assumptions": ["Chars::next yields the characters in order; String::push appends; char::to_digit(16) is the hex value; char::from_u32 is Some exactly for non-surrogate values <= 0x10FFFF and converts back (std documentation, shims)",
                         "listed rewrites in unit unescape: the local closure `unicode` is beta-reduced at its single call; `iter.by_ref().take(4).fold(0, f)` is replaced by its definition (at most four `next()` calls folded with f, f's body kept verbatim)",
                         "memchr2 finds the first of two ASCII bytes and an ASCII byte is a whole character in UTF-8; byte-range slicing / str::get on char boundaries (shims); &str values with equal characters are equal (axiom)"],
         "not_decided": ["block strings beyond line splitting: common indentation, removal of blank leading / trailing lines, the escaped triple quote (unescape_block_string, replace_into: iterator adapter chains and memmem -- outside Verus's subset; Kani cannot execute memchr's runtime CPU detection)",
-                        "From<&cst::StringValue> for String (rowan token access; the slices &text[1..len-1] / &text[3..len-3] -- their safety follows from lemma_lexer_accepts_only_decodable_strings's s.len() >= 2 only for quoted strings), "
-                        "the copies into ast::Value / descriptions in apollo-compiler (from_cst.rs)"],
+                        "that the syntax tree hands `From<&cst::StringValue> for String` the lexer's token text (rowan; C02), and the copies into ast::Value / descriptions in apollo-compiler (from_cst.rs)"],
     },
     "C09": {
         "level": "proof",
